@@ -26,9 +26,6 @@ def rules(t):
                 reg = pp.reachable_from([e[1][1]])
                 inv = [s for s in t.aggrs("error::DisconnectReason", "ReceivedInvalidChannelId", pp) if s.bb in reg]
                 if not inv: r.bad("invalid-channel", c, "unknown channel id is not turned into ReceivedInvalidChannelId")
-    for c in t.calls(r"unwrap$|expect$", pp):
-        a = fmt(t.arg(c, 0))
-        if "from_bytes" in a or "process_" in a: r.bad("unwrap-on-input", c, "unwrap on a result that depends on packet bytes")
     out.append(r)
     r = RuleResult("C06.c", "accounted receive memory stays within budget and never wraps (PAIR + budget guards, shared with C09)", floor=4)
     for rr in C09.rules(t):
